@@ -2,15 +2,19 @@ SPEC = {
     "id": "C20",
     "level": "other",
     "sidecars": ["utils"],
-    "functions": ["ural/utils.py:pathsplit"],
+    "functions": ["ural/utils.py:pathsplit", "ural/ensure_protocol.py:ensure_protocol", "ural/force_protocol.py:force_protocol", "ural/strip_protocol.py:strip_protocol"],
+    "function_sidecars": {"ural/ensure_protocol.py:ensure_protocol": ["protocol_ensure"], "ural/force_protocol.py:force_protocol": ["protocol_force"],
+                          "ural/strip_protocol.py:strip_protocol": ["protocol_strip"]},
     "bounded": ["bcheck.c20"],
     "explanation": (
         "Deciding step is BOUNDED (bcheck/c20.py, written against an independent oracle bcheck/ref_c20.py): the algebraic laws of ensure / force / "
         "strip_protocol on every string of length <= 6 over 'a Z : / . ? # space' and a 14,784-URL grammar x 16 protocols; format_url / URLFormatter on "
         "all small argument dicts / lists x bases x paths x fragments x extensions (query decodes to the retained arguments, one '/' at the junction, "
         "fragment, no '?' without arguments); add_query_argument / get_query_argument append-exactly-one / read-back / fragment kept; pathsplit / "
-        "urlpathsplit segments. Deductive extra (all inputs, pyvc): pathsplit returns [] for '' and '/' after strip and never raises. The protocol "
-        "helpers are three-line regex functions: their laws need the semantics of [a-zA-Z]{0,64}:?// which both solvers time out on (DESIGN.md section 1)."),
+        "urlpathsplit segments. Deductive extras (all inputs, pyvc): pathsplit returns [] for '' and '/' after strip and never raises; ensure_protocol / "
+        "force_protocol / strip_protocol as case formulas over the opaque PROTOCOL_RE match / substitution: no protocol => '<p>://' + url, scheme-relative => "
+        "'<p>:' + url, else untouched (ensure) / the pattern's substitution by '<p>://' (force), with <p> = protocol.rstrip(':/'); nothing raises. Their "
+        "algebraic laws need the semantics of [a-zA-Z]{0,64}:?// which both solvers time out on (DESIGN.md section 1): bounded."),
     "assumptions": ["alphabetic protocols of 1..64 letters (the bound of the pattern)", "item order of the produced query is not demanded, only the multiset",
                     "for a base URL without '?' / '#' the full equality clauses apply; for bases that already carry a query or fragment only inclusion is demanded (and recorded as a known finding)"],
     "trusted_base": ["bcheck/ref_c20.py reference splitter and strict decoder", "pyvc + z3 for the extra"],
